@@ -465,6 +465,7 @@ def _hit(sig, what, **kw):
 
 
 SIG_F10 = "stale-hook:mutated-link-reachable-through-itself"
+SIG_F14 = "stale-hook:default-evaluated-silently-on-first-assignment"
 SIG_F4 = "registration-not-rolled-back:completed-sibling-subtree"
 SIG_F4_TOP = "registration-not-rolled-back:completed-sibling-graph"
 SIG_F4_RM = "removal-not-rolled-back:completed-sibling-subtree"
@@ -486,6 +487,13 @@ class Runner:
         self.shadow_default = False  # an unhooked default was "removed" on first assignment
 
     # ------------------------------------------------------------------ ops
+    @staticmethod
+    def default_of(o, name):
+        if name == "child":
+            r = _DEFAULT.get(id(o))
+            return None if r is None else r()
+        return {"value": 0, "extra": 0, "kids": [], "byname": {}, "group": set()}.get(name)
+
     def container(self, ident, cls):
         x = self.w.objs.get(ident)
         if ident < 100 or not isinstance(x, cls):
@@ -877,7 +885,7 @@ class Runner:
         if self.selfreach:
             sig = SIG_F10
         elif self.shadow_default:
-            sig = "stale-hook:unhooked-default-unhooked-on-first-assignment"
+            sig = SIG_F14
         else:
             sig = "hooks-differ-from-reachability:%s:%s" % (kind, self.cur_kind)
         self.hits08.append(_hit(sig, what, after_op=self.cur_op))
@@ -953,7 +961,8 @@ class Runner:
                         if p[2] in o.traits() and p[2] in o.__dict__:
                             self.old_value = o.__dict__[p[2]]
                         else:
-                            self.old_value = w
+                            # unset: the old value of the assignment is the default
+                            self.old_value = self.default_of(o, p[2])
                     try:
                         self.apply(op)
                     except Skip:
@@ -969,7 +978,7 @@ class Runner:
                         o = w.pool[int(p[1])]
                         new = o.__dict__.get(p[2])
                         try:
-                            self.set_changed = self.old_value is w or not (self.old_value == new)
+                            self.set_changed = not (self.old_value is new or self.old_value == new)
                         except Exception:
                             self.set_changed = True
                     if pre is not None and self.check_reach():
@@ -1124,6 +1133,7 @@ class Gen:
         self.conts = {}          # identity -> 'l' | 'd' | 's'
         self.attached = {}       # (obj, field) -> identity
         self.added = set()       # (obj, name) added traits
+        self.tagof = {}
         self.ops = []
 
     def fresh(self):
@@ -1172,7 +1182,10 @@ class Gen:
         if x < 0.46:
             name = r.choice(["extra", "xchild", "items"])
             self.added.add((o, name))
-            return "addt %d %s %d" % (o, name, int(r.random() < 0.4))
+            # re-adding an existing trait keeps its metadata (replacing a trait by one with
+            # different metadata fires no trait_added and is outside the statement)
+            tag = self.tagof.setdefault((o, name), int(r.random() < 0.4))
+            return "addt %d %s %d" % (o, name, tag)
         if x < 0.50 and self.added:
             o2, name = r.choice(sorted(self.added))
             if name == "extra":
